@@ -6,27 +6,27 @@ From NV Require Spec.C01 Proofs.Server_proofs.
 Import ListNotations.
 
 (* at most one response is ever started on a connection *)
-Theorem C01_single_response : forall ip6 handler mw up ip fp evs,
-  Spec.C01.clause_single (run ip6 handler mw up ip fp init evs) = true.
+Theorem C01_single_response : forall ip6 handler mw up ucf ip fp evs,
+  Spec.C01.clause_single (run ip6 handler mw up ucf ip fp init evs) = true.
 Proof. exact Server_proofs.single_response. Qed.
 Print Assumptions C01_single_response.
 
 (* what reaches the peer is nothing, or one well-formed header (+ body only after 2x), then close *)
-Theorem C01_shape : forall ip6 handler mw up ip fp evs,
-  Spec.C01.clause_shape (run ip6 handler mw up ip fp init evs) = true.
+Theorem C01_shape : forall ip6 handler mw up ucf ip fp evs,
+  Spec.C01.clause_shape (run ip6 handler mw up ucf ip fp init evs) = true.
 Proof. exact Server_proofs.shape. Qed.
 Print Assumptions C01_shape.
 
 (* a body on the wire is the serialisation of a value the handler side produced *)
 Theorem C01_faithful : forall ip6 c evs,
   Spec.C01.clause_faithful c evs
-    (run ip6 (fun _ => c_hres c) (c_mw c) (c_upload c) (c_ip c) (c_fp c) init evs) = true.
+    (run ip6 (fun _ => c_hres c) (c_mw c) (c_upload c) (c_upfail c) (c_ip c) (c_fp c) init evs) = true.
 Proof. exact Server_proofs.faithful. Qed.
 Print Assumptions C01_faithful.
 
 (* nothing is written after the peer has gone *)
-Theorem C01_silent_after_lost : forall ip6 handler mw up ip fp evs,
-  Spec.C01.clause_silent_after_lost evs (run ip6 handler mw up ip fp init evs) false = true.
+Theorem C01_silent_after_lost : forall ip6 handler mw up ucf ip fp evs,
+  Spec.C01.clause_silent_after_lost evs (run ip6 handler mw up ucf ip fp init evs) false = true.
 Proof. exact Server_proofs.silent_after_lost. Qed.
 Print Assumptions C01_silent_after_lost.
 
@@ -35,14 +35,14 @@ Print Assumptions C01_silent_after_lost.
    judge request lines outside the URL model (non-ASCII authority: action AOutOfModel, nothing sent) *)
 Definition C01_obligation_full_statement : Prop := forall ip6 c evs,
   Spec.C01.clause_obligation ip6 c evs
-    (run ip6 (fun _ => c_hres c) (c_mw c) (c_upload c) (c_ip c) (c_fp c) init evs) = true.
+    (run ip6 (fun _ => c_hres c) (c_mw c) (c_upload c) (c_upfail c) (c_ip c) (c_fp c) init evs) = true.
 
 (* proved: the same for every schedule whose request line is inside the URL model *)
 Theorem C01_obligation_partial : forall ip6 c evs,
   existsb (fun a => match a with AOutOfModel => true | _ => false end)
-          (flat (run ip6 (fun _ => c_hres c) (c_mw c) (c_upload c) (c_ip c) (c_fp c) init evs)) = false ->
+          (flat (run ip6 (fun _ => c_hres c) (c_mw c) (c_upload c) (c_upfail c) (c_ip c) (c_fp c) init evs)) = false ->
   Spec.C01.clause_obligation ip6 c evs
-    (run ip6 (fun _ => c_hres c) (c_mw c) (c_upload c) (c_ip c) (c_fp c) init evs) = true.
+    (run ip6 (fun _ => c_hres c) (c_mw c) (c_upload c) (c_upfail c) (c_ip c) (c_fp c) init evs) = true.
 Proof. exact Server_proofs.obligation_partial. Qed.
 Print Assumptions C01_obligation_partial.
 
@@ -50,11 +50,11 @@ Print Assumptions C01_obligation_partial.
    response and a close *)
 From NV Require Proofs.C01_timeout.
 Theorem C01_timeout_obligation_partial : forall ip6 c evs,
-  valid_reads evs (run ip6 (fun _ => c_hres c) (c_mw c) (c_upload c) (c_ip c) (c_fp c) init evs) false = true ->
+  valid_reads evs (run ip6 (fun _ => c_hres c) (c_mw c) (c_upload c) (c_upfail c) (c_ip c) (c_fp c) init evs) false = true ->
   existsb (fun a => match a with AOutOfModel => true | _ => false end)
-          (flat (run ip6 (fun _ => c_hres c) (c_mw c) (c_upload c) (c_ip c) (c_fp c) init evs)) = false ->
+          (flat (run ip6 (fun _ => c_hres c) (c_mw c) (c_upload c) (c_upfail c) (c_ip c) (c_fp c) init evs)) = false ->
   Spec.C01.clause_timeout_obligation ip6 c evs
-    (run ip6 (fun _ => c_hres c) (c_mw c) (c_upload c) (c_ip c) (c_fp c) init evs) = true.
+    (run ip6 (fun _ => c_hres c) (c_mw c) (c_upload c) (c_upfail c) (c_ip c) (c_fp c) init evs) = true.
 Proof. exact C01_timeout.timeout_obligation_partial. Qed.
 Print Assumptions C01_timeout_obligation_partial.
 
@@ -66,15 +66,15 @@ From NV Require Import Prelude.Utf8 Equiv.ServerGlue Gen.ServerGen Equiv.ServerL
 From NV Require Equiv.EquivServerLoop Proofs.Server_on_code.
 Theorem C01_single_response_on_code : forall reenc : str -> str,
   EquivServerLoop.reenc_ok reenc ->
-  forall ip6 handler mw up ip fp evs,
-  Spec.C01.clause_single (gen_run reenc ip6 handler mw up ip fp init evs) = true.
+  forall ip6 handler mw up ucf ip fp evs,
+  Spec.C01.clause_single (gen_run reenc ip6 handler mw up ucf ip fp init evs) = true.
 Proof. exact Server_on_code.single_response_on_code. Qed.
 Print Assumptions C01_single_response_on_code.
 
 Theorem C01_shape_on_code : forall reenc : str -> str,
   EquivServerLoop.reenc_ok reenc ->
-  forall ip6 handler mw up ip fp evs,
-  Spec.C01.clause_shape (gen_run reenc ip6 handler mw up ip fp init evs) = true.
+  forall ip6 handler mw up ucf ip fp evs,
+  Spec.C01.clause_shape (gen_run reenc ip6 handler mw up ucf ip fp init evs) = true.
 Proof. exact Server_on_code.shape_on_code. Qed.
 Print Assumptions C01_shape_on_code.
 
@@ -82,14 +82,14 @@ Theorem C01_faithful_on_code : forall reenc : str -> str,
   EquivServerLoop.reenc_ok reenc ->
   forall ip6 c evs,
   Spec.C01.clause_faithful c evs
-    (gen_run reenc ip6 (fun _ => c_hres c) (c_mw c) (c_upload c) (c_ip c) (c_fp c) init evs) = true.
+    (gen_run reenc ip6 (fun _ => c_hres c) (c_mw c) (c_upload c) (c_upfail c) (c_ip c) (c_fp c) init evs) = true.
 Proof. exact Server_on_code.faithful_on_code. Qed.
 Print Assumptions C01_faithful_on_code.
 
 Theorem C01_silent_after_lost_on_code : forall reenc : str -> str,
   EquivServerLoop.reenc_ok reenc ->
-  forall ip6 handler mw up ip fp evs,
-  Spec.C01.clause_silent_after_lost evs (gen_run reenc ip6 handler mw up ip fp init evs) false = true.
+  forall ip6 handler mw up ucf ip fp evs,
+  Spec.C01.clause_silent_after_lost evs (gen_run reenc ip6 handler mw up ucf ip fp init evs) false = true.
 Proof. exact Server_on_code.silent_after_lost_on_code. Qed.
 Print Assumptions C01_silent_after_lost_on_code.
 
@@ -97,11 +97,37 @@ Theorem C01_obligation_on_code_partial : forall reenc : str -> str,
   EquivServerLoop.reenc_ok reenc ->
   forall ip6 c evs,
   existsb (fun a => match a with AOutOfModel => true | _ => false end)
-          (flat (gen_run reenc ip6 (fun _ => c_hres c) (c_mw c) (c_upload c) (c_ip c) (c_fp c) init evs)) = false ->
+          (flat (gen_run reenc ip6 (fun _ => c_hres c) (c_mw c) (c_upload c) (c_upfail c) (c_ip c) (c_fp c) init evs)) = false ->
   Spec.C01.clause_obligation ip6 c evs
-    (gen_run reenc ip6 (fun _ => c_hres c) (c_mw c) (c_upload c) (c_ip c) (c_fp c) init evs) = true.
+    (gen_run reenc ip6 (fun _ => c_hres c) (c_mw c) (c_upload c) (c_upfail c) (c_ip c) (c_fp c) init evs) = true.
 Proof. exact Server_on_code.obligation_partial_on_code. Qed.
 Print Assumptions C01_obligation_on_code_partial.
+
+(* ---- the upload handler's CALL may fail before an awaitable exists (DESIGN 11.25, 11.26).  All theorems above quantify over it:
+   `ucf` / `c_upfail c` = None (an awaitable comes back, completion arrives as EDone) or Some msg (the call raised Exception(msg),
+   or handed back something asyncio.create_task refuses).  Stated once explicitly: such a call counts as an invocation
+   (action AUploadCall), creates no task, and is answered exactly as a task that failed with the same message is. ---- *)
+Theorem C01_upload_call_failure_answered_as_failed_task : forall handler ucf msg s t id rest,
+  titan s = Some t ->
+  start_upload true (Some msg) s
+    = (fst (upload_failed s msg), AUploadCall (t_line t) (content s) :: snd (upload_failed s msg)) /\
+  is_invocation (AUploadCall (t_line t) (content s)) = true /\
+  spawn_id (AUploadCall (t_line t) (content s)) = None /\
+  (take_task id (pending s) = (Some TUpload, rest) ->
+   task_done handler true ucf s id (ORaise msg) = upload_failed (set_pending s rest) msg).
+Proof.
+  intros handler ucf msg s t id rest T. repeat split.
+  - unfold start_upload. rewrite T. destruct (upload_failed s msg). reflexivity.
+  - intro H. unfold task_done. rewrite H. reflexivity.
+Qed.
+Print Assumptions C01_upload_call_failure_answered_as_failed_task.
+
+(* ... and _start_titan_upload as translated from the source - its `except Exception as e` clause included - is that model
+   function, for every behaviour of the call (the oracle `upcall_of ucf`, coq/Equiv/ServerGlue.v) *)
+From NV Require Equiv.EquivServer.
+Theorem C01_code_start_titan_upload_tie : ltac:(let t := type of @EquivServer.start_titan_upload_tie in exact t).
+Proof. exact (@EquivServer.start_titan_upload_tie). Qed.
+Print Assumptions C01_code_start_titan_upload_tie.
 
 (* ---- tie to the code (server/tls_protocol.py: what the PyOpenSSL wrapper does with the response writes and the close): theorems of coq/Equiv/EquivTls.v (statements there), re-checked against the definitions
    regenerated from /repo's working tree; see DESIGN.md 11.8 ---- *)
